@@ -11,6 +11,8 @@ import (
 	"sync"
 	"testing"
 
+	"golang.org/x/net/idna"
+
 	"github.com/emersion/go-message/textproto"
 	"github.com/emersion/go-smtp"
 	"github.com/foxcpp/maddy/framework/address"
@@ -18,20 +20,39 @@ import (
 	"github.com/foxcpp/maddy/framework/config"
 	"github.com/foxcpp/maddy/framework/log"
 	"github.com/foxcpp/maddy/framework/module"
+	"github.com/foxcpp/maddy/internal/verifshim/vc09"
 	"github.com/foxcpp/maddy/internal/verifshim/vh"
 	"github.com/foxcpp/maddy/internal/verifshim/vsmtp"
 )
 
-func c09LAddr(id int, form byte) string {
+// forms as in the remote harness: the number is the MAILBOX number, several recipients of one
+// transaction may be spellings of one mailbox (a/u, i/I/x/X, c/d/C).
+func c09LAddr(mbox int, form byte) string {
 	switch form {
 	case 'i':
-		return fmt.Sprintf("u%d@пример.example", id)
+		return fmt.Sprintf("u%d@пример.example", mbox)
+	case 'I':
+		return fmt.Sprintf("U%d@пример.example", mbox)
+	case 'x':
+		a, _ := idna.ToASCII("пример.example")
+		return fmt.Sprintf("u%d@%s", mbox, a)
+	case 'X':
+		a, _ := idna.ToASCII("пример.example")
+		return fmt.Sprintf("U%d@%s", mbox, strings.ToUpper(a))
 	case 'l':
-		return fmt.Sprintf("ю%d@d.example", id)
+		return fmt.Sprintf("ю%d@d.example", mbox)
+	case 'c':
+		return fmt.Sprintf("\u00e9%d@d.example", mbox)
+	case 'd':
+		return fmt.Sprintf("e\u0301%d@d.example", mbox)
+	case 'C':
+		return fmt.Sprintf("\u00c9%d@d.example", mbox)
 	case 'u':
-		return fmt.Sprintf("U%d@D.EXAMPLE", id)
+		return fmt.Sprintf("U%d@D.EXAMPLE", mbox)
+	case 'U':
+		return fmt.Sprintf("U%d@d.example", mbox)
 	default:
-		return fmt.Sprintf("u%d@d.example", id)
+		return fmt.Sprintf("u%d@d.example", mbox)
 	}
 }
 
@@ -45,7 +66,11 @@ func (c09BadBuffer) Open() (io.ReadCloser, error) { return nil, errors.New("spoo
 func (c09BadBuffer) Len() int                     { return 4 }
 func (c09BadBuffer) Remove() error                { return nil }
 
-// case spec: <utf8>/<id.form.accept.status,...>/<dataFail>/<bodyOpenFail>
+// case spec: <utf8>/<id.form.accept.status[.mbox],...>/<dataFail>/<bodyOpenFail>/<dropAfter>
+// accept: 1 / 0 (550) / t (451) / 4 c r = the connection breaks under this RCPT (421 + close, close,
+// reset). A recipient with a 5th field, a form outside "ailu" or an accept outside 0/1 selects the
+// positional next hop (vc09): RCPT answers and per-recipient replies are given by position, so
+// they do not depend on how the address is spelled.
 func c09LMTP(t *testing.T, out *vh.Out, spec string) {
 	f := strings.Split(spec, "/")
 	utf8 := f[0] == "1"
@@ -55,11 +80,49 @@ func c09LMTP(t *testing.T, out *vh.Out, spec string) {
 	if len(f) > 4 && f[4] != "-" {
 		dropAfter, _ = strconv.Atoi(f[4])
 	}
+	type rc struct {
+		id     int
+		form   byte
+		accept bool
+		ok     bool
+		act    byte
+		mbox   int
+	}
+	var rcs []rc
+	positional := false
+	for _, rs := range strings.Split(f[1], ",") {
+		p := strings.Split(rs, ".")
+		id, _ := strconv.Atoi(p[0])
+		r := rc{id, p[1][0], p[2] == "1", p[3] == "o", p[2][0], id}
+		if len(p) > 4 {
+			r.mbox, _ = strconv.Atoi(p[4])
+			positional = true
+		}
+		if !strings.ContainsRune("ailu", rune(r.form)) || (r.act != '0' && r.act != '1') {
+			positional = true
+		}
+		rcs = append(rcs, r)
+	}
 	testPort = vsmtp.FreePort()
 	var srv *vsmtp.Server
 	var raw *vsmtp.RawLMTP
+	var pos *vc09.Server
 	var err error
-	if dropAfter >= 0 {
+	if positional {
+		pos, err = vc09.Start("127.0.0.1:"+testPort, utf8, true)
+		if err != nil {
+			testPort = vsmtp.FreePort()
+			pos, err = vc09.Start("127.0.0.1:"+testPort, utf8, true)
+		}
+		if err != nil {
+			t.Fatal(err)
+		}
+		defer pos.Close()
+		pos.Set(func(s *vc09.Server) { s.LMTPSend = dropAfter })
+		dataFail = false // the positional responder does not script DATA refusals
+		srv = &vsmtp.Server{Script: vsmtp.NewScript()}
+		out.Stat("lmtp.backend.positional")
+	} else if dropAfter >= 0 {
 		raw, err = vsmtp.StartRawLMTP("127.0.0.1:" + testPort)
 		if err != nil {
 			t.Fatal(err)
@@ -79,24 +142,12 @@ func c09LMTP(t *testing.T, out *vh.Out, spec string) {
 		}
 		defer srv.Close()
 	}
-	type rc struct {
-		id     int
-		form   byte
-		accept bool
-		ok     bool
-	}
-	var rcs []rc
-	for _, rs := range strings.Split(f[1], ",") {
-		p := strings.Split(rs, ".")
-		id, _ := strconv.Atoi(p[0])
-		rcs = append(rcs, rc{id, p[1][0], p[2] == "1", p[3] == "o"})
-	}
 	srv.Script.Set(func(s *vsmtp.Script) {
 		if dataFail {
 			s.DataFail = 451
 		}
 		for _, r := range rcs {
-			k, _ := address.ForLookup(c09LAddr(r.id, r.form))
+			k, _ := address.ForLookup(c09LAddr(r.mbox, r.form))
 			if !r.accept {
 				s.RejectRcpt[k] = 550
 			}
@@ -108,14 +159,15 @@ func c09LMTP(t *testing.T, out *vh.Out, spec string) {
 	if raw != nil {
 		srv.Script.Set(func(s *vsmtp.Script) {
 			raw.RejectRcpt = s.RejectRcpt
+			// per-recipient replies by the recipient the responder really accepted (a recipient the
+			// target refuses locally never arrives, so positions in the script would be off)
+			raw.StatusByKey = map[string]int{}
 			for _, r := range rcs {
-				if !r.accept {
-					continue
-				}
+				k, _ := address.ForLookup(c09LAddr(r.mbox, r.form))
 				if r.ok {
-					raw.StatusCodes = append(raw.StatusCodes, 250)
+					raw.StatusByKey[k] = 250
 				} else {
-					raw.StatusCodes = append(raw.StatusCodes, 452)
+					raw.StatusByKey[k] = 452
 				}
 			}
 		})
@@ -133,13 +185,39 @@ func c09LMTP(t *testing.T, out *vh.Out, spec string) {
 		t.Fatal(err)
 	}
 	byAddr := map[string]int{}
+	addrOf := map[int]string{}
 	var accepted []string
 	var serverSt []string
 	acceptedN := map[int]int{}
+	faulted := false
 	for _, r := range rcs {
-		a := c09LAddr(r.id, r.form)
+		a := c09LAddr(r.mbox, r.form)
 		byAddr[a] = r.id
-		if err := d.AddRcpt(ctx, a, smtp.RcptOptions{}); err == nil {
+		addrOf[r.id] = a
+		if pos != nil {
+			pos.NextRcpt(r.act)
+		}
+		if r.mbox != r.id {
+			out.Stat("lmtp.respelled." + string(r.form))
+		}
+		before := 0
+		if pos != nil {
+			before = pos.AcceptedTotal()
+		}
+		err := d.AddRcpt(ctx, a, smtp.RcptOptions{})
+		if pos != nil && pos.AcceptedTotal() > before {
+			// the per-recipient reply for the RCPT the next hop has just accepted (by position)
+			code := 250
+			if !r.ok {
+				code = 452
+			}
+			pos.Set(func(s *vc09.Server) { s.LMTPCodes = append(s.LMTPCodes, code) })
+		}
+		if pos != nil && vc09.IsFault(r.act) && pos.Pending() == 0 {
+			faulted = true // (an address refused locally never reaches the next hop: no fault)
+			out.Stat("lmtp.fault." + string(r.act))
+		}
+		if err == nil {
 			accepted = append(accepted, strconv.Itoa(r.id))
 			acceptedN[r.id]++
 			if r.ok {
@@ -149,7 +227,10 @@ func c09LMTP(t *testing.T, out *vh.Out, spec string) {
 			}
 		}
 	}
-	if dataFail || openFail {
+	if pos != nil {
+		pos.NextRcpt(0)
+	}
+	if dataFail || openFail || faulted {
 		serverSt = nil
 	}
 	if dropAfter >= 0 && dropAfter < len(serverSt) && !openFail {
@@ -231,6 +312,44 @@ func c09LMTP(t *testing.T, out *vh.Out, spec string) {
 			out.Violation("C09/lmtp-status-for-unaccepted-recipient", op, fmt.Sprintf("result for %d; statuses %v", id, st))
 		}
 	}
+	// ground truth (positional and raw next hop): a recipient that is not reported as failed is one
+	// the next hop answered 250 for after the data
+	var delivered []string
+	haveTruth := false
+	if pos != nil {
+		haveTruth = true
+		pos.Set(func(s *vc09.Server) {
+			for _, tx := range s.Txs {
+				delivered = append(delivered, tx.Delivered...)
+			}
+		})
+	} else if raw != nil {
+		haveTruth = true
+		raw.Set(func(r *vsmtp.RawLMTP) { delivered = append(delivered, r.Delivered...) })
+	}
+	if haveTruth {
+		held := map[string]int{}
+		for _, w := range delivered {
+			held[w]++
+		}
+		for _, s := range st {
+			kv := strings.SplitN(s, "=", 2)
+			id, err := strconv.Atoi(kv[0])
+			if err != nil || kv[1] != "o" {
+				continue
+			}
+			a := addrOf[id]
+			conv, cerr := address.ToASCII(a)
+			switch {
+			case held[a] > 0:
+				held[a]--
+			case cerr == nil && held[conv] > 0:
+				held[conv]--
+			default:
+				out.Violation("C09/lmtp-success-reported-for-recipient-the-next-hop-did-not-accept", op, fmt.Sprintf("recipient %d reported as delivered; the next hop answered 250 after the data for %d recipients, this one is not (or no longer) among them; statuses %v", id, len(delivered), st))
+			}
+		}
+	}
 	out.Stat(fmt.Sprintf("lmtp.accepted.%d", len(accepted)))
 	if dataFail {
 		out.Stat("lmtp.datafail")
@@ -250,9 +369,76 @@ func TestVerifC09LMTP(t *testing.T) {
 	}
 	r := vh.NewRng(vh.Seed() + 919)
 	n := vh.N(150)
+	families := []string{"auU", "aU", "iIxX", "cdC", "ix", "xi"}
 	for i := 0; i < n; i++ {
 		nr := 1 + r.Intn(4)
 		var rs []string
+		if i%2 == 1 {
+			// positional next hop: mailboxes spelled in several ways as different recipients,
+			// independent RCPT answers and per-recipient replies, connection faults under a RCPT
+			id := 0
+			insert := func(tok string) {
+				k := r.Intn(len(rs) + 1)
+				rs = append(rs, "")
+				copy(rs[k+1:], rs[k:])
+				rs[k] = tok
+			}
+			pick := func() (byte, string) {
+				acc, ok := byte('1'), "o"
+				switch {
+				case r.Chance(12):
+					acc = '0'
+				case r.Chance(4):
+					acc = 't'
+				}
+				if r.Chance(40) {
+					ok = "f"
+				}
+				return acc, ok
+			}
+			groups := 1 + r.Intn(2)
+			for g := 0; g < groups; g++ {
+				fam := families[r.Intn(len(families))]
+				cnt := 2
+				if len(fam) > 2 && r.Chance(40) {
+					cnt = 3
+				}
+				off := r.Intn(len(fam))
+				mbox := id + 1
+				for k := 0; k < cnt; k++ {
+					id++
+					acc, ok := pick()
+					tok := fmt.Sprintf("%d.%c.%c.%s", id, fam[(off+k)%len(fam)], acc, ok)
+					if id != mbox {
+						tok += "." + strconv.Itoa(mbox)
+					}
+					if r.Chance(50) {
+						insert(tok)
+					} else {
+						rs = append(rs, tok)
+					}
+				}
+			}
+			for k := r.Intn(3); k > 0; k-- {
+				id++
+				acc, ok := pick()
+				insert(fmt.Sprintf("%d.%c.%c.%s", id, "aailuxcd"[r.Intn(8)], acc, ok))
+			}
+			if r.Chance(20) {
+				id++
+				insert(fmt.Sprintf("%d.%c.%c.o", id, "aaix"[r.Intn(4)], "4cr"[r.Intn(3)]))
+			}
+			of := 0
+			if r.Chance(5) {
+				of = 1
+			}
+			drop := "-"
+			if r.Chance(25) {
+				drop = strconv.Itoa(r.Intn(len(rs) + 1))
+			}
+			c09LMTP(t, out, fmt.Sprintf("%d/%s/0/%d/%s", r.Intn(2), strings.Join(rs, ","), of, drop))
+			continue
+		}
 		for j := 1; j <= nr; j++ {
 			acc, ok := 1, "o"
 			if r.Chance(20) {
